@@ -420,7 +420,7 @@ class MergeDictsGeneric(Unit):
                 en.assign(st_.target, (k, rval), env)
                 en.exec_block(st_.body, env)
 
-            e.loop_handlers["merge_dicts:right.items()"] = loop
+            e.loop_handlers["merge_dicts:loop#0"] = loop
 
             def isinst(en, args, kwargs, anysym):
                 x, t = args
@@ -467,7 +467,7 @@ class MergeDictsGeneric(Unit):
 
         def none_cases(e):
             e.overrides.pop(dict_util.merge_dicts, None)
-            e.loop_handlers.pop("merge_dicts:right.items()", None)
+            e.loop_handlers.pop("merge_dicts:loop#0", None)
             d = AbstractObj("d")
             ctx.oblige("C06.merge_dicts.per_key", e.call(dict_util.merge_dicts, [None, d], {}) is d and
                        e.call(dict_util.merge_dicts, [d, None], {}) is d, None, {"none": True})
